@@ -106,6 +106,15 @@ impl CompleteStatus {
   }
 }
 
+/// Verification hook: the future `wait_for_end` blocks on, so that a checker
+/// can poll it step by step instead of blocking.
+#[cfg(feature = "verif_hooks")]
+pub fn verif_status_future(
+  this: Arc<CompleteStatus>,
+) -> impl Future<Output = NormalReturn<()>> {
+  StatusFuture(this)
+}
+
 struct StatusFuture(Arc<CompleteStatus>);
 impl Future for StatusFuture {
   type Output = NormalReturn<()>;
